@@ -76,6 +76,7 @@ class Engine:
         self.notify_counts = {}
         self.diverted = False
         self.stepper_cancelled = 0
+        self.given_up = 0
         self.transitions = []  # (from, to) from ENTERED_STATE callbacks
         self.samples = []  # (tick, state, paused, terminated, future_done) on change
         self.last_sample = None
@@ -365,6 +366,18 @@ class Engine:
                 else:
                     rec.result = self.task.cancel()
                     self.stepper_cancelled += 1
+            elif kind == 'giveup':
+                # whoever asked for the last kill / pause stops waiting for it: the future that call returned is cancelled
+                # (asyncio.wait_for(proc.kill(), timeout) timing out does exactly that)
+                import asyncio
+
+                pending = [r for r in self.records if r.action['act'] in ('kill', 'pause') and asyncio.isfuture(r.result)
+                           and not r.result.done()]
+                if pending:
+                    rec.result = pending[-1].result.cancel()
+                    self.given_up += 1
+                else:
+                    rec.result = 'skipped'
             elif kind == 'restep':
                 # somebody runs the process again
                 if self.task.done() and not proc.has_terminated():
